@@ -89,6 +89,37 @@ pub struct Snapshot {
     pub mdns_browse_in_flight: bool,
 }
 
+/// One entry of the subscription table of the Interaction Model
+#[derive(Debug, Clone, PartialEq, Eq)]
+pub struct SubSnap {
+    pub id: u32,
+    pub fab_idx: u8,
+    pub peer_node_id: u64,
+    pub min_int_secs: u16,
+    pub max_int_secs: u16,
+    /// `reported_at` in ticks (`u64::MAX` = never)
+    pub reported_at: u64,
+    /// `retry_at` in ticks (0 = no retry pending)
+    pub retry_at: u64,
+    pub fail_count: u8,
+    pub max_seen_attr_change_id: u64,
+    pub max_seen_event_number: u64,
+    /// The entry is the snapshot of the subscription currently being reported on
+    pub in_flight: bool,
+}
+
+/// The subscription table and the pending-change table of the Interaction Model
+#[derive(Debug, Clone, PartialEq, Eq)]
+pub struct SubsSnapshot {
+    /// Number of accepted subscriptions, including one being primed / reported on
+    pub count: usize,
+    pub subs: Vec<SubSnap>,
+    /// Largest change id handed out so far
+    pub change_watermark: u64,
+    /// Number of entries in the pending-change table
+    pub pending_changes: usize,
+}
+
 /// The verdict of the transport on a received datagram.
 #[derive(Debug, Clone, Copy, PartialEq, Eq)]
 pub enum RxVerdict {
